@@ -31,6 +31,7 @@ CONSTANTS Replicas,     \* all trees
           AllowDup,     \* batches may repeat an id
           AllowNoPath,  \* payloads without snapshot path (the response-collector path)
           AllowStale,   \* batches may contain changes the receiver already holds
+          WholeOnly,    \* deliveries carry everything the sender stores, in stored order (larger universes)
           Sizes         \* abstract sizes a new change can have (C09)
 
 VARIABLES rep           \* replica state
@@ -126,9 +127,11 @@ DeliverTo(st, B, theirHeads, theirPath) ==
                amb   |-> st.amb \/ ForeignBetween(st.store, iter1)]
 
 \* the batches a sender can produce from what it stores
-BatchesOf(S, n) ==
-    {b \in UNION {[1..k -> S] : k \in 1..n} :
-        AllowDup \/ \A i, j \in 1..Len(b) : i # j => b[i] # b[j]}
+BatchesOf(store, n) ==
+    LET S == SeqSet(store) \ {Root} IN
+    IF WholeOnly THEN (IF S = {} THEN {} ELSE {Tail(store)})
+    ELSE {b \in UNION {[1..k -> S] : k \in 1..n} :
+             AllowDup \/ \A i, j \in 1..Len(b) : i # j => b[i] # b[j]}
 
 Deliver(dst, src, B, withPath) ==
     LET st  == rep[dst]
@@ -153,7 +156,7 @@ Reopen(r) ==
 
 Next ==
     \/ \E w \in Writers, id \in Ids, s \in BOOLEAN, sz \in Sizes : Add(w, id, s, sz)
-    \/ \E dst, src \in Replicas : \E B \in BatchesOf(StoreSet(rep[src]) \ {Root}, MaxBatch) :
+    \/ \E dst, src \in Replicas : \E B \in BatchesOf(rep[src].store, MaxBatch) :
            \E p \in BOOLEAN : Deliver(dst, src, B, p)
     \/ \E r \in Replicas : Reopen(r)
 
